@@ -124,15 +124,27 @@ HeaderPair(cp, ce, pp, pe) == /\ StartsWith(ce, <<STAR, STAR>> \o pe) /\ StartsW
                               /\ SubSeq(ce, 3 + Len(pe), Len(ce)) = SubSeq(cp, 3 + Len(pp), Len(cp))
 \* ga must be gb with F applied to every non-header cell, after dropping the lines F leaves with only null cells
 AllNullRow(row) == \A i \in 1..Len(row) : IsNullText(row[i])
-RowsRelated(ga, gb, pa, pb, F(_)) ==
-  LET mapped == [r \in 1..Len(gb) |-> IF IsHeaderTextRow(gb[r]) THEN gb[r] ELSE [i \in 1..Len(gb[r]) |-> F(gb[r][i])]]
-      kept == SelectSeq([r \in 1..Len(gb) |-> r], LAMBDA r : IsHeaderTextRow(gb[r]) \/ ~AllNullRow(mapped[r])) IN
-  /\ Len(ga) = Len(kept)
-  /\ \A k \in 1..Len(kept) :
-        LET r == kept[k] IN
-        /\ Len(ga[k]) = Len(gb[r])
-        /\ \A i \in 1..Len(ga[k]) : IF IsHeaderTextRow(gb[r]) THEN HeaderPair(ga[k][i], gb[r][i], pa, pb)
-                                                              ELSE NormCell(ga[k][i]) = NormCell(mapped[r][i])
+\* ga must be gb with F applied to every non-header cell.  A line that F leaves with only null cells may have been dropped or kept
+\* (whether such a line is dropped is C05's statement, not C04's): Align pairs the lines of ga with lines of gb greedily and
+\* returns the index in gb of every line of ga, or <<0>> when there is no such pairing.
+MappedGrid(gb, F(_)) == [r \in 1..Len(gb) |-> IF IsHeaderTextRow(gb[r]) THEN gb[r] ELSE [i \in 1..Len(gb[r]) |-> F(gb[r][i])]]
+RowMatches(rowa, rowb, isHeader, pa, pb) ==
+  /\ Len(rowa) = Len(rowb)
+  /\ \A i \in 1..Len(rowa) : IF isHeader THEN HeaderPair(rowa[i], rowb[i], pa, pb) ELSE NormCell(rowa[i]) = NormCell(rowb[i])
+RECURSIVE AlignFrom(_, _, _, _, _, _, _, _)
+AlignFrom(ga, gb, mapped, pa, pb, r, k, acc) ==
+  IF r > Len(gb) THEN (IF k = Len(ga) + 1 THEN acc ELSE <<0>>)
+  ELSE IF ~IsHeaderTextRow(gb[r]) /\ AllNullRow(mapped[r])
+       THEN (IF k <= Len(ga) /\ Len(ga[k]) = Len(mapped[r]) /\ AllNullRow(ga[k])
+             THEN AlignFrom(ga, gb, mapped, pa, pb, r + 1, k + 1, Append(acc, r))
+             ELSE AlignFrom(ga, gb, mapped, pa, pb, r + 1, k, acc))
+       ELSE IF k <= Len(ga) /\ RowMatches(ga[k], mapped[r], IsHeaderTextRow(gb[r]), pa, pb)
+            THEN AlignFrom(ga, gb, mapped, pa, pb, r + 1, k + 1, Append(acc, r))
+            ELSE <<0>>
+Align(ga, gb, pa, pb, F(_)) == AlignFrom(ga, gb, MappedGrid(gb, F), pa, pb, 1, 1, <<>>)
+RowsRelated(ga, gb, pa, pb, F(_)) == Align(ga, gb, pa, pb, F) # <<0>>
+\* the characters a duration, pitch or accidental sub-token can consist of (plus the separators of the extended basic form)
+MainPartChars == (48..57) \cup {37, 46, 113, 112, 80, 114, 35, 45, 110, 120, 88, 105, 73, 106, 90, 121, 89, 64, 32} \cup (97..103) \cup (65..71)
 PerNoteBasic(t) == LET parts == SplitOn(t, SPACE) IN Join([i \in 1..Len(parts) |-> BasicNote(parts[i])], SPACE)
 NoLetters(t) == SelectSeq(t, LAMBDA c : c \notin 97..103 /\ c \notin 65..71)
 NoteCount(t) == Len(SplitOn(t, SPACE))
@@ -144,11 +156,17 @@ RelationChecks(e) ==
               << <<"relation.plain_is_extended_minus_separators", RowsRelated(a.grid, b.grid, EncPrefix(e.ea), EncPrefix(e.eb), StripSep)>> >>
          [] e.rel = "basic_vs_full" ->       \* a = basic extended, b = full extended
               << <<"relation.basic_is_full_minus_signifiers_per_note", RowsRelated(a.grid, b.grid, EncPrefix(e.ea), EncPrefix(e.eb), PerNoteBasic)>>,
-                 <<"relation.no_chord_note_lost", RowsRelated(a.grid, b.grid, EncPrefix(e.ea), EncPrefix(e.eb), PerNoteBasic) =>
-                        LET kept == SelectSeq([r \in 1..Len(b.grid) |-> r], LAMBDA r : IsHeaderTextRow(b.grid[r]) \/
-                                                 ~AllNullRow([i \in 1..Len(b.grid[r]) |-> PerNoteBasic(b.grid[r][i])])) IN
-                        \A k \in 1..Len(kept) : \A i \in 1..Len(a.grid[k]) :
-                            IsNullText(a.grid[k][i]) \/ NoteCount(a.grid[k][i]) = NoteCount(b.grid[kept[k]][i])>> >>
+                 <<"relation.no_chord_note_lost", LET al == Align(a.grid, b.grid, EncPrefix(e.ea), EncPrefix(e.eb), PerNoteBasic) IN
+                        al # <<0>> => \A k \in 1..Len(al) : \A i \in 1..Len(a.grid[k]) :
+                            IsHeaderTextRow(b.grid[al[k]]) \/ NoteCount(a.grid[k][i]) = NoteCount(b.grid[al[k]][i])
+                                                            \/ (IsNullText(a.grid[k][i]) /\ NoteCount(b.grid[al[k]][i]) = 1)>>,
+                 \* ... so a basic note consists of duration / pitch / accidental parts only: no signifier character survives in it
+                 <<"relation.basic_carries_no_signifier",
+                   LET ea == Log[tid][e.a]  o == OptsOf(ea.args)  vs == ViewsFrom(2, Len(stages), o)  g == a.grid IN
+                   (~ea.args.hasfrom /\ ~ea.args.hasto /\ Len(g) = Len(vs) /\ \A r \in 1..Len(g) : Len(g[r]) = Len(vs[r])) =>
+                      \A r \in 1..Len(g) : \A i \in 1..Len(g[r]) :
+                         ("note" \in DOMAIN vs[r][i] \/ "chord" \in DOMAIN vs[r][i]) =>
+                            (IsNullText(g[r][i]) \/ \A j \in 1..Len(g[r][i]) : g[r][i][j] \in MainPartChars)>> >>
          [] e.rel = "agn_vs_kern" ->         \* a = agnostic plain, b = kern: only pitch letters may differ
               << <<"relation.agnostic_differs_only_in_pitch_letters",
                    /\ Len(a.grid) = Len(b.grid)
@@ -212,6 +230,9 @@ CallChecks(e) ==
                                                         /\ r.match_core_other = (CoreHeaderTexts = SelectSeq(r.other_headers, LAMBDA t : t \in {HKern, HMens}))>>,
                                  <<"small.level_counts", r.levels = LevelCounts>>,
                                  <<"small.header_nodes", r.headers = HeaderTexts>> >>
+    [] e.op = "tokenize"   -> \* a tokenizer used directly on the token of a node, under a clef of the caller's choice
+                              LET n == At(e.ptr)  o == [DefaultOpts EXCEPT !.enc = e.enc]  v == CellViewCk(n, o, ClefKindOfText(e.clef)) IN
+                              << <<"agnostic.tokenizer_under_given_clef", v.ok => (e.res.ok /\ e.res.t = v.t)>> >>
     [] e.op = "opaque"     -> <<>>                                                        \* a call only watched for purity
     [] e.op = "flag"       -> << <<e.name, e.value>> >>                                   \* a comparison between two REAL objects made by the harness
     [] OTHER -> << <<"unknown_op", FALSE>> >>
